@@ -499,10 +499,12 @@ pub fn capitalize(s: &str) -> String {
     }
 }
 
+/// The last component of an archive member's name: `c` of `a/b/c`, `b` of the directory member `a/b/`
 pub fn parse_unix_filename(s: &str) -> &str {
+    let s = s.strip_suffix('/').unwrap_or(s);
     let last_slash = s.rfind('/');
     match last_slash {
-        Some(idx) => &s[idx..],
+        Some(idx) => &s[idx + 1..],
         _ => s,
     }
 }
